@@ -23,19 +23,22 @@ type c02Elem struct {
 	class string   // shape class for finding keys
 }
 
-var c02BindCands = []string{"a", "b", "ab", "1", "12", "a%2Fb", "%61", "%zz", "%2561", "%", "ba", "\n", "a\nb", "\x00", "\xff"}
+var c02BindCands = []string{"a", "b", "ab", "1", "12", "a%2Fb", "%61", "%zz", "%2561", "%", "ba", "\n", "a\nb", "\x00", "\xff", "A", "aB"}
 
 func c02Elements(full bool) []c02Elem {
 	var out []c02Elem
 	lits := []c02Elem{
-		{text: "a", cands: []string{"a"}, class: "plain"},
+		{text: "a", cands: []string{"a", "A"}, class: "plain"},
 		{text: "a+b", cands: []string{"a+b", "aab", "ab"}, class: "regex-active-literal"},
 		{text: "a.b", cands: []string{"a.b", "axb"}, class: "plain"},
 		{text: "(v)", cands: []string{"(v)", "v"}, class: "regex-active-literal"},
 	}
-	exprsFull := []string{`a`, `[ab]+`, `a|b`, `(a|b)+`, `a(b)?`, `\d+`, `.*`}
+	exprsFull := []string{`a`, `[ab]+`, `a|b`, `(a|b)+`, `a(b)?`, `\d+`, `.*`, `(?i)(a|b)`} // the last one: a flag that must stay inside its own expression
 	exprsRed := []string{`[ab]+`, `(a|b)+`, `\d+`, `.*`}
 	cls := func(e string) string {
+		if strings.HasPrefix(e, "(?i)") {
+			return "flag-group"
+		}
 		if strings.Contains(e, "(") {
 			return "own-group"
 		}
